@@ -1,3 +1,4 @@
+import Proofs.C13Pins
 import Proofs.C13
 import Proofs.C13Streams
 import Proofs.C13Newline
@@ -452,3 +453,20 @@ example : (find [102] (step echoBeh (after echoBeh (St.init true none []) [.prin
     some [120] ∧ (step echoBeh (after echoBeh (St.init true none []) [.printTo .gt [102] [120]]) (.close [46, 47, 102])).2 = .num (-1) := by decide
 
 end GoawkModel.C13.Props
+
+/-! ## Pinned source text (regenerated tie; extract/pins.go, tools/repin.py)
+An edit of one of these functions in /repo breaks the matching obligation: the model below was written from the text
+in `Proofs.C13Pins` and has to be compared with the new text before it is re-pinned. -/
+namespace GoawkModel.Pins.C13
+theorem pin_getOutputStream : Generated.C13Pins.getOutputStream = Expected.getOutputStream := rfl
+theorem pin_closeAll : Generated.C13Pins.closeAll = Expected.closeAll := rfl
+theorem pin_flushAll : Generated.C13Pins.flushAll = Expected.flushAll := rfl
+theorem pin_flushStream : Generated.C13Pins.flushStream = Expected.flushStream := rfl
+theorem pin_flushWriter : Generated.C13Pins.flushWriter = Expected.flushWriter := rfl
+theorem pin_flushOutputAndError : Generated.C13Pins.flushOutputAndError = Expected.flushOutputAndError := rfl
+theorem pin_printErrorf : Generated.C13Pins.printErrorf = Expected.printErrorf := rfl
+theorem pin_writeOutput : Generated.C13Pins.writeOutput = Expected.writeOutput := rfl
+theorem pin_printLine : Generated.C13Pins.printLine = Expected.printLine := rfl
+theorem pin_list : Generated.C13Pins.pinned = Expected.pinned := rfl
+end GoawkModel.Pins.C13
+-- end of pinned source text
